@@ -51,15 +51,21 @@ type pipeCase struct {
 	// an ignore-not-found node, 2 not-found on a plain node; for "ok": 1 = ignore-not-found node; for a stage
 	// whose plan is one node without operator: 1 = Plan() returns nil
 	Flavor map[string]int `json:"flavor"`
+	// a panic while the stage, whose own plan succeeded, plans / registers its next stages (the complete-callback of
+	// pipeline.executeStage): -1 none, 0 NextStages() itself panics (no next stage registered yet), k >= 1 the
+	// Identifier() of the k-th next stage panics inside stateMachine.executeStage (the next stages before it are
+	// registered and started)
+	NextPanic map[string]int `json:"npanic"`
 }
 
 func (c *pipeCase) key() string {
-	return fmt.Sprint(c.Children, c.Async, c.Outcome, c.PKids, c.POut)
+	return fmt.Sprint(c.Children, c.Async, c.Outcome, c.PKids, c.POut, c.NextPanic)
 }
 
 func newPipeCase() *pipeCase {
 	return &pipeCase{Children: map[string][]string{}, Async: map[string]bool{}, Outcome: map[string]string{}, Root: "s0",
-		PKids: map[string][]string{}, POut: map[string]string{}, PRoot: map[string]string{}, Flavor: map[string]int{}}
+		PKids: map[string][]string{}, POut: map[string]string{}, PRoot: map[string]string{}, Flavor: map[string]int{},
+		NextPanic: map[string]int{}}
 }
 
 // pn: literal plan tree of the scripted cases.
@@ -75,6 +81,7 @@ func (c *pipeCase) addStage(s string, async bool, plan *pn, children ...string) 
 	c.Children[s] = append([]string{}, children...)
 	c.Async[s] = async
 	c.Outcome[s] = "tree"
+	c.NextPanic[s] = -1
 	if plan == nil {
 		c.Outcome[s] = "planpanic"
 		plan = nd("ok")
@@ -322,6 +329,136 @@ func finishCases(rng *rand.Rand, sample int, gated bool) []finishCase {
 	return out
 }
 
+// nextPanicCases: a stage whose own plan succeeded panics while it plans / registers its next stages -- in
+// NextStages() itself (nothing registered yet) or in the Identifier() of its k-th next stage (the next stages before
+// it are registered and started) -- inline and on the pool, as the last pending stage and with siblings / already
+// started next stages still running (every order of the lock sections and decrements of the completeStage calls).
+func nextPanicCases(gated bool) []finishCase {
+	var out []finishCase
+	seen := map[string]bool{}
+	add := func(c *pipeCase, order []string) {
+		if !gated {
+			var o []string
+			for _, t := range order {
+				if t[0] != 'D' {
+					o = append(o, t)
+				}
+			}
+			order = o
+		}
+		key := c.key() + fmt.Sprint(order)
+		if !seen[key] {
+			seen[key] = true
+			out = append(out, finishCase{c, order})
+		}
+	}
+	for _, async := range []bool{false, true} {
+		// the only stage of the pipeline
+		c := newPipeCase()
+		c.addStage("s0", async, nd("none", nd("ok"), nd("ok")))
+		c.NextPanic["s0"] = 0
+		add(c, nil)
+	}
+	for m := 0; m < 4; m++ {
+		// r -> a, a panics in NextStages(); a on the pool: before / after r is completed
+		c := newPipeCase()
+		c.Root = "r"
+		c.addStage("r", m&1 != 0, nd("ok"), "a")
+		c.addStage("a", m&2 != 0, nd("ok"))
+		c.NextPanic["a"] = 0
+		if m&2 == 0 {
+			add(c, nil)
+			continue
+		}
+		for _, o := range finishOrders([]string{"a"}) {
+			add(c, o)
+		}
+	}
+	// r -> (a, b) on the pool, a panics in NextStages(): a is the last pending stage, or b / r are still pending
+	for i, o := range finishOrders([]string{"a", "b"}) {
+		c := newPipeCase()
+		c.Root = "r"
+		c.addStage("r", i%2 == 1, nd("ok"), "a", "b")
+		c.addStage("a", true, nd("ok"))
+		c.addStage("b", true, nd("none", nd("ok"), nd("ok")))
+		c.NextPanic["a"] = 0
+		if i%7 == 3 {
+			c.POut["bn1"] = "err" // ... and the sibling fails as well
+		}
+		add(c, o)
+	}
+	// r -> (a, b), a or b inline: the panic of the inline next stage is recovered inside r's complete-callback
+	for m := 0; m < 8; m++ {
+		c := newPipeCase()
+		c.Root = "r"
+		c.addStage("r", m&1 != 0, nd("ok"), "a", "b")
+		c.addStage("a", m&2 != 0, nd("ok"))
+		c.addStage("b", m&2 == 0, nd("ok"))
+		if m&4 != 0 {
+			c.NextPanic["a"] = 0
+		} else {
+			c.NextPanic["b"] = 0
+		}
+		add(c, nil)
+	}
+	// r -> a -> b: the stage in the middle panics in NextStages(), b never exists
+	for m := 0; m < 4; m++ {
+		c := newPipeCase()
+		c.Root = "r"
+		c.addStage("r", m&1 != 0, nd("ok"), "a")
+		c.addStage("a", m&2 != 0, nd("ok"), "b")
+		c.addStage("b", true, nd("ok"))
+		c.NextPanic["a"] = 0
+		add(c, nil)
+	}
+	return out
+}
+
+// identPanicCases: the Identifier() of the k-th next stage panics inside stateMachine.executeStage.
+func identPanicCases(gated bool) []finishCase {
+	var out []finishCase
+	add := func(c *pipeCase, order []string) {
+		if !gated {
+			var o []string
+			for _, t := range order {
+				if t[0] != 'D' {
+					o = append(o, t)
+				}
+			}
+			order = o
+		}
+		out = append(out, finishCase{c, order})
+	}
+	for _, async := range []bool{false, true} {
+		// r -> a, the registration of a panics: r is the only stage that ever started
+		c := newPipeCase()
+		c.Root = "r"
+		c.addStage("r", async, nd("ok"), "a")
+		c.addStage("a", true, nd("ok"))
+		c.NextPanic["r"] = 1
+		add(c, nil)
+		// r -> (a, b), a is registered and running on the pool when the registration of b panics
+		for _, o := range finishOrders([]string{"a"}) {
+			c := newPipeCase()
+			c.Root = "r"
+			c.addStage("r", async, nd("ok"), "a", "b")
+			c.addStage("a", true, nd("none", nd("ok"), nd("ok")))
+			c.addStage("b", true, nd("ok"))
+			c.NextPanic["r"] = 2
+			add(c, o)
+		}
+		// ... a ran inline (and is finished) when the registration of b panics
+		c = newPipeCase()
+		c.Root = "r"
+		c.addStage("r", async, nd("ok"), "a", "b")
+		c.addStage("a", false, nd("ok"))
+		c.addStage("b", false, nd("ok"))
+		c.NextPanic["r"] = 2
+		add(c, nil)
+	}
+	return out
+}
+
 // orderPick drives the scheduler through `order`: the next lock section / decrement of the order is released as soon
 // as its thread is parked in front of it; parked threads that are not in front of a step of the order run first
 // (planning, operators); *missed counts the steps that could not be placed (the thread of the step never arrived
@@ -482,13 +619,28 @@ func runPipeCase(rec *trace.Recorder, c *pipeCase, seed int64, free bool, order 
 			},
 			Next: func() []stagepkg.Stage {
 				sc.Yield(owner(s), "next:"+s)
+				if c.NextPanic[s] == 0 {
+					// NextStages() of a stage whose plan succeeded panics: nothing is registered yet
+					rec.Emit("NextPanic", trace.F{"s": s, "k": 0})
+					panic("next kaboom " + s)
+				}
 				var out []stagepkg.Stage
 				for _, ch := range c.Children[s] {
 					out = append(out, mk(ch))
 				}
 				return out
 			},
-			OnIdentifier: func() { rec.Emit("Register", trace.F{"s": s}) },
+			OnIdentifier: func() {
+				// called by stateMachine.executeStage inside its lock section
+				if p, ok := parent[s]; ok {
+					if k := c.NextPanic[p]; k >= 1 && k <= len(c.Children[p]) && c.Children[p][k-1] == s {
+						// the registration of the k-th next stage of p panics (on p's goroutine, inside p's complete-callback)
+						rec.Emit("NextPanic", trace.F{"s": p, "k": k})
+						panic("identifier kaboom " + s)
+					}
+				}
+				rec.Emit("Register", trace.F{"s": s})
+			},
 			OnComplete: func() {
 				// called by completeStage inside its lock section
 				if gated {
@@ -562,6 +714,8 @@ func pipelineMain(args []string) int {
 	maxStages := fs.Int("stages", 5, "max stages per tree")
 	free := fs.Bool("free", false, "free-running (no gates)")
 	orders := fs.Int("orders", 60, "sample of the 630 finishing orders of three concurrent stages")
+	ident := fs.Bool("ident", false, "debug: include the cases with a panicking Identifier() of a next stage")
+	only := fs.String("only", "", "debug: `nextpanic` runs the next-stage panic cases only")
 	_ = fs.Parse(args)
 	rec, err := trace.New(*out)
 	if err != nil {
@@ -573,14 +727,17 @@ func pipelineMain(args []string) int {
 	distinct := map[string]bool{}
 	scripted := 0
 	for _, c := range scriptedCases() {
+		if *only != "" {
+			break
+		}
 		r := runPipeCase(rec, c, rng.Int63(), *free, nil)
 		distinct[c.key()+fmt.Sprint(r.schedule)] = true
 		scripted++
 	}
 	// concurrently finishing stages, one failing: every order of the lock sections and decrements of completeStage
-	finishing, missed, stuck := 0, 0, 0
+	finishing, missed, stuck, missedNP := 0, 0, 0, 0
 	const maxStuck = 25 // every stuck case costs seconds and is a rejected trace: that many are evidence enough
-	if !*free {
+	if !*free && *only == "" {
 		for _, fc := range finishCases(rng, *orders, pipelineSetGate != nil) {
 			r := runPipeCase(rec, fc.c, rng.Int63(), false, fc.order)
 			distinct[fc.c.key()+fmt.Sprint(r.schedule)] = true
@@ -598,7 +755,34 @@ func pipelineMain(args []string) int {
 			sum.Unresolved = append(sum.Unresolved, fmt.Sprintf("%d of %d finishing orders could not be scheduled", missed, finishing))
 		}
 	}
+	// a panic while a stage plans / registers its next stages
+	nextPanics := 0
+	if !*free {
+		cases := nextPanicCases(pipelineSetGate != nil)
+		if *ident {
+			cases = append(cases, identPanicCases(pipelineSetGate != nil)...)
+		}
+		for _, fc := range cases {
+			r := runPipeCase(rec, fc.c, rng.Int63(), false, fc.order)
+			distinct[fc.c.key()+fmt.Sprint(r.schedule)] = true
+			nextPanics++
+			if r.missed > 0 && r.quiesced {
+				missedNP++
+			}
+			if !r.quiesced {
+				if stuck++; stuck > maxStuck {
+					break
+				}
+			}
+		}
+		if missedNP > 0 {
+			sum.Unresolved = append(sum.Unresolved, fmt.Sprintf("%d of %d next-stage panic orders could not be scheduled", missedNP, nextPanics))
+		}
+	}
 	for i := 0; i < *n; i++ {
+		if *only != "" {
+			break
+		}
 		k := 1 + rng.Intn(*maxStages)
 		pe, pp := 0.2, 0.2
 		if i%4 == 0 {
@@ -623,7 +807,7 @@ func pipelineMain(args []string) int {
 	_ = rec.Close()
 	sum.Traces, sum.Events = rec.Counts()
 	sum.Distinct = len(distinct)
-	sum.Extra = map[string]any{"scripted_plan_tree_cases": scripted, "finishing_orders": finishing,
+	sum.Extra = map[string]any{"scripted_plan_tree_cases": scripted, "finishing_orders": finishing, "next_stage_panic_cases": nextPanics,
 		"completeStage_gate": pipelineSetGate != nil}
 	sum.Print()
 	return 0
